@@ -170,6 +170,78 @@ def _finish(res, w, results=None):
     return res
 
 
+class Multi:
+    """A case made of several Worlds (e.g. the same job on several process grids,
+    or a run followed by a restart).  Worlds run one after the other; the replay
+    tape is the list of the Worlds' tapes."""
+
+    def __init__(self, prop, tape=None):
+        self.prop = prop
+        self.tapes_in = tape
+        self.parts = []
+
+    def run(self, nranks, sched, rank_fn, post_fn=None):
+        i = len(self.parts)
+        t = None
+        if self.tapes_in is not None:
+            t = self.tapes_in[i] if i < len(self.tapes_in) else []
+        sched = dict(sched)
+        sched['seed'] = int(sched.get('seed', 0)) * 1000003 + i
+        res = execute(self.prop, nranks, sched, t, rank_fn, post_fn)
+        res['world'] = i
+        self.parts.append(res)
+        return res
+
+    def failed(self):
+        for p in self.parts:
+            if p['status'] not in ('ok', 'aborted'):
+                return p
+        return None
+
+    def finish(self, extra=None, oracle=None):
+        """Merge the parts; `oracle()` (cross-World comparison) runs only when every part is ok."""
+        bad = self.failed()
+        res = dict(status='ok', prop=self.prop, kind=None, message=None, detail=None, nontrivial=True,
+                   finding_key=None)
+        if bad is not None:
+            for k in ('status', 'kind', 'message', 'detail'):
+                res[k] = bad[k]
+            res['message'] = ('world %d: ' % bad['world']) + (bad['message'] or '')
+        elif oracle is not None:
+            try:
+                ex = oracle()
+                if ex:
+                    res.update(ex)
+            except OracleFail as e:
+                res.update(status='violation', kind=e.kind, message=jdump(simworld._jsonable(e.detail))[:2000],
+                           detail=simworld._jsonable(e.detail))
+            except Skip as e:
+                res.update(status='skip', kind='skip', message=str(e))
+        res['events'] = sum(p['events'] for p in self.parts)
+        res['sim_time'] = round(sum(p['sim_time'] for p in self.parts), 6)
+        res['digest'] = hashlib.sha256(''.join(p['digest'] for p in self.parts).encode()).hexdigest()[:16]
+        res['order_digest'] = hashlib.sha256(''.join(p['order_digest'] for p in self.parts).encode()).hexdigest()[:16]
+        faults, probes = {}, {}
+        for p in self.parts:
+            for k, v in p['faults'].items():
+                faults[k] = faults.get(k, 0) + v
+            for k, v in p['probes'].items():
+                probes[k] = probes.get(k, 0) + v
+        probes.update(res.get('probes') or {})
+        res['faults'] = faults
+        res['probes'] = probes
+        res['tape'] = [p['tape'] for p in self.parts]
+        res['tape_len'] = sum(p['tape_len'] for p in self.parts)
+        res['worlds'] = len(self.parts)
+        if extra:
+            for k, v in extra.items():
+                if k == 'probes':
+                    res['probes'].update(v)
+                else:
+                    res[k] = v
+        return res
+
+
 # OracleFail raised inside a rank thread is recorded by World as (type, str, tb).
 # Keep its kind by patching how World stores it: done here to keep simworld generic.
 _orig_run = World.run
@@ -530,11 +602,13 @@ def write_evidence(mod, tier, base_seed, cov, wall, nviol):
     os.replace(tmp, path)
 
 
-def determinism_check(mod, tier, base_seed, results, k=6):
+def determinism_check(mod, tier, base_seed, results, k=None):
     """Re-run a few cases of the batch in this (different) process, from the seed
     and from the tape, and compare event-log digests."""
     checked = 0
     mismatches = []
+    if k is None:
+        k = getattr(mod, 'DET_K', 6)
     by_idx = {r['idx']: r for r in results}
     for i in sorted(by_idx)[:k]:
         r0 = by_idx[i]
